@@ -347,7 +347,20 @@ def collision_helpers(ctx, rule="GUARD-collision"):
         params = s.params
         a, st = ("param", params[0]), ("param", params[1])
         raises = [e for e in s.events if e[1] == "raise"]
-        good = [e for e in raises if any(c == ("cmp", "in", a, st) and pol for c, pol in e[0])]
+
+        def asserts_member(c, pol):
+            """True if (c, pol) on a path means `addr in container`, False if it means `addr not in container`, None if unrelated."""
+            if not isinstance(c, tuple):
+                return None
+            if c == ("cmp", "in", a, st):
+                return bool(pol)
+            if c == ("cmp", "not in", a, st):
+                return not pol
+            if c[0] == "unop" and c[1] == "not":
+                r = asserts_member(c[2], pol)
+                return None if r is None else (not r)
+            return None
+        good = [e for e in raises if any(asserts_member(c, pol) is True for c, pol in e[0])]
         if not good:
             ck.fail("raises when the address was already used", f"no `raise` guarded by `{params[0]} in {params[1]}`")
         else:
@@ -356,7 +369,7 @@ def collision_helpers(ctx, rule="GUARD-collision"):
                 ck.fail("raises ValueError", f"raises {short(exc, ev)}")
         if adds:
             addcalls = [e for e in s.events if e[1] == "call" and e[2][1] == ("attr", st, "add") and e[2][2] == (a,)]
-            if not any(not any(c == ("cmp", "in", a, st) and pol for c, pol in e[0]) for e in addcalls):
+            if not any(not any(asserts_member(c, pol) is True for c, pol in e[0]) for e in addcalls):
                 ck.fail("records the address after the check", "visited.add(addr) missing on the non-colliding path")
         ck.done()
 
